@@ -21,7 +21,7 @@ through the library's own matrices with sentinel-filled buffers decide it per ca
 are not composed into one `render_no_fault` theorem over whole scenes; (3) NaN-freedom of depth
 relies on C05 `scan_dvdx_den_ne_zero` / `scan_rows_imp_dy`.
 -/
-import Retro.Props.C03
+import Retro.Props.C03.Base
 import Retro.Props.C04
 import Retro.Model.Render
 
